@@ -32,7 +32,13 @@ def modname(prog, m):
 
 
 def lit(v):
+    if isinstance(v, dict) and "$var" in v:
+        return v["$var"]        # a default value that is the module variable itself (`def f(a, k=V0)`)
     return repr(v)
+
+
+def default_var(d):
+    return d["$var"] if isinstance(d, dict) and "$var" in d else None
 
 
 def mods_of(prog):
@@ -66,6 +72,11 @@ def _ref_name(prog, cur_mod, target_mod, name, form):
     if form == "pkgattr":
         return modname(prog, target_mod) + "." + name
     raise ValueError(form)
+
+
+def _rt_expr(a):
+    """A run-time argument: a local name, or (after an `rtx` edit) an expression around it: `(r0, 3)`."""
+    return a["e"] if a.get("x") is None else f"({a['e']}, {a['x']!r})"
 
 
 def render_func(prog, fname):
@@ -124,24 +135,37 @@ def render_func(prog, fname):
                 if a["k"] == "lit":
                     args.append(lit(a["v"]))
                 elif a["k"] == "rt":
-                    args.append(a["e"])
+                    args.append(_rt_expr(a))
                 elif a["k"] == "kw":
                     args.append(f"{a['n']}={lit(a['v'])}")
                 elif a["k"] == "kwrt":
-                    args.append(f"{a['n']}={a['e']}")
+                    args.append(f"{a['n']}={_rt_expr(a)}")
                 elif a["k"] == "rtcall":
                     args.append(_ref_name(prog, cur, prog["funcs"][a["f"]]["mod"], a["f"], "direct") + "()")
                 elif a["k"] == "kwrtcall":
                     args.append(f"{a['n']}=" + _ref_name(prog, cur, prog["funcs"][a["f"]]["mod"], a["f"], "direct") + "()")
+            # "join": the statement starts on the line of the previous statement (`a = f(); b = dds.keep(...`)
+            joined = bool(it.get("join")) and not lines[-1].lstrip().startswith(("#", "def ", "@")) and not lines[-1].rstrip().endswith((":", ","))
             if it.get("multiline"):
-                lines.append(f"    {r} = dds.keep({pexpr}, {nm},")
+                first = f"{r} = dds.keep({pexpr}, {nm},"
+                if joined:
+                    lines[-1] = lines[-1] + "; " + first
+                else:
+                    lines.append("    " + first)
                 for a in args:
                     lines.append(f"        {a},")
                 lines.append("    )")
             else:
-                lines.append(f"    {r} = dds.keep({', '.join([pexpr, nm] + args)})")
+                stmt = f"{r} = dds.keep({', '.join([pexpr, nm] + args)})"
+                if joined:
+                    lines[-1] = lines[-1] + "; " + stmt
+                else:
+                    lines.append("    " + stmt)
         elif t == "load":
             lines.append(f"    {r} = dds.load({it['path']!r})")
+        elif t == "shadow":
+            # a module-level helper of THIS module that has the name of a tracked variable of ANOTHER module
+            lines.append(f"    {r} = {it['name']}()")
         elif t == "eval":
             g = prog["funcs"][it["f"]]
             nm = _ref_name(prog, cur, g["mod"], it["f"], it.get("form", "direct"))
@@ -248,6 +272,14 @@ def _imports_for(prog, m):
     return lines
 
 
+def shadow_names(prog, m):
+    return sorted({it["name"] for fn in funcs_in(prog, m) for it in prog["funcs"][fn]["body"] if it["t"] == "shadow"})
+
+
+def shadow_text(name):
+    return [f"def {name}():", f"    return ('helper', {name!r})"]
+
+
 def render(prog):
     """Returns {relative file path: text} for the whole source tree."""
     files = {}
@@ -269,6 +301,9 @@ def render(prog):
             for i, it in enumerate(f["body"]):
                 if it["t"] == "keep" and it.get("pathform", "lit") != "lit":
                     lines.append(f"PATH_{fn}_{i} = {it['path']!r}")
+        for sn in shadow_names(prog, m):
+            lines.append("")
+            lines.extend(shadow_text(sn))
         extra = prog.get("extra", {}).get(m, [])
         pre = [e for e in extra if e.get("pos", "top") == "top"]
         for e in pre:
